@@ -1311,6 +1311,23 @@ fn adts_to_raw(frame: &[u8]) -> Result<&[u8], AdtsValidationError> {
         });
     }
 
+    if aac_frame_length == header_len {
+        // A header-only frame carries no AAC data; storing it would create a zero-size
+        // sample, which the sample-size table does not allow (INV-004 at finish time).
+        return Err(AdtsValidationError {
+            kind: AdtsErrorKind::InvalidFrameLength,
+            severity: ErrorSeverity::Error,
+            byte_offset: 3,
+            expected: Some(format!(">{} (header plus at least one payload byte)", header_len)),
+            found: Some(format!("{} (header only)", aac_frame_length)),
+            hex_dump: Some(create_hex_dump(3, 3)),
+            suggestion: Some("Frame length equals the header length, so the frame has no AAC payload. Skip empty frames instead of muxing them.".to_string()),
+            code_example: None,
+            technical_details: Some("Frame length (13 bits) includes the header; payload = frame length - header length.".to_string()),
+            related_errors: Vec::new(),
+        });
+    }
+
     if aac_frame_length > frame.len() {
         return Err(AdtsValidationError {
             kind: AdtsErrorKind::InvalidFrameLength,
